@@ -191,6 +191,20 @@ func (r *c14Run) viol(kind, detail string) {
 		ident = "undo-after-purge:recreated-" + r.recreated
 		detail += "\nan undo/redo of this history re-created a purged " + r.recreated + " node"
 	}
+	if ident != "" {
+		// a symptom of a recorded finding: counted every time, kept only a few times per case;
+		// it must not use up the budget that ends an enumeration
+		r.res.AddStat("attributed_to_recorded_findings", 1)
+		n := 0
+		for _, v := range r.res.Viol {
+			if v.Ident == ident {
+				n++
+			}
+		}
+		if n >= 2 {
+			return
+		}
+	}
 	r.res.Violate(kind, detail+"\nprogram: "+strings.Join(prog, "; "), ident, rp)
 }
 
@@ -733,7 +747,7 @@ func (w *c14Worker) runExhaustive(res *runner.CaseResult, family string, chunk, 
 						r.deliverToPeer()
 					}
 					if r.bad {
-						stop = len(res.Viol) >= 3
+						stop = unattributed(res) >= 3
 					}
 				}
 			}
